@@ -17,6 +17,7 @@ import (
 	"math/rand"
 	"os"
 	"path/filepath"
+	"regexp"
 	"runtime"
 	"sort"
 	"strings"
@@ -84,6 +85,72 @@ func (g graph) tlaModule(name string) string {
 	fmt.Fprintf(&sb, "GEntries == %s\nGInjected == %s\n", tlaSeq(g.Entries), tlaSeq(g.Injected))
 	sb.WriteString("Export == (phase = \"done\" /\\ ~cancel) => PrintT(<<\"CASE\", ToJson([arrival |-> arrival, stable |-> StableOrder])>>)\n====\n")
 	return sb.String()
+}
+
+// the trace-validation module for one graph: the graph module plus trace actions
+func (g graph) tlaTraceModule(name string) string {
+	base := g.tlaModule(name)
+	base = strings.TrimSuffix(base, "====\n")
+	return base + `
+TraceLog == ndJsonDeserialize("scantrace.ndjson")
+VARIABLE l
+tvars == <<vars, l>>
+Ev == TraceLog[l]
+IsEv(n) == l <= Len(TraceLog) /\ TraceLog[l].ev = n
+Consume == l' = l + 1
+TraceInit == Init /\ l = 1 /\ TLCSet(1, 1)
+
+TrReset ==
+  /\ IsEv("reset") /\ Consume
+  /\ phase' = "onstart" /\ startLeft' = NOnStart
+  /\ visited' = [f \in Files |-> IF f = Runtime THEN 0 ELSE -1]
+  /\ nextIdx' = 1 /\ remaining' = 1
+  /\ parsing' = {Runtime} /\ ready' = {} /\ received' = {} /\ arrival' = <<>>
+  /\ spawns' = [f \in Files |-> IF f = Runtime THEN 1 ELSE 0]
+  /\ entryNext' = 1 /\ injNext' = 1 /\ injWaiting' = {} /\ panicked' = {} /\ cancel' = FALSE
+
+\* scan.barrier: onStartWaitGroup.Wait() returned
+TrBarrier == IsEv("barrier") /\ Consume /\ Barrier
+
+\* scan.visit outside of the receive loop: an injected file or an entry point
+TrVisitTop ==
+  /\ IsEv("visit") /\ Consume
+  /\ \/ phase = "inject" /\ InjectSpawn /\ Injected[injNext] = Ev.m
+     \/ phase = "entries" /\ AddEntry /\ Entries[entryNext] = Ev.m
+  /\ Ev.hit = (visited[Ev.m] # -1)
+  /\ visited'[Ev.m] = Ev.idx
+
+\* scan.recv + scan.result + the scan.visit events of its import records (regrouped by the harness)
+TrMainRecv ==
+  /\ IsEv("mainrecv") /\ Consume
+  /\ MainRecv(Ev.f)
+  /\ Len(Ev.visits) = Len(ImportsOf(Ev.f))
+  /\ \A k \in 1..Len(Ev.visits) :
+        /\ Ev.visits[k].m = ImportsOf(Ev.f)[k]
+        /\ visited'[Ev.visits[k].m] = Ev.visits[k].idx
+        /\ (~Ev.visits[k].hit) => visited[Ev.visits[k].m] = -1
+  /\ remaining' = Ev.remaining + Cardinality({k \in 1..Len(Ev.visits) : ~Ev.visits[k].hit})
+
+\* the build returned: the scan must be complete
+TrDone == IsEv("done") /\ Consume /\ phase = "done" /\ UNCHANGED vars
+
+Silent ==
+  /\ l' = l
+  /\ \/ InjectWaitDone \/ EntriesDone \/ ScanDone
+     \/ \E f \in Files : ParseReady(f)
+
+TraceNext == TrReset \/ TrBarrier \/ TrVisitTop \/ TrMainRecv \/ TrDone \/ Silent
+TraceSpec == TraceInit /\ [][TraceNext]_tvars
+HighWater == IF l > TLCGet(1) THEN TLCSet(1, l) ELSE TRUE
+TraceAccepted == PrintT(<<"HIGHWATER", TLCGet(1)>>) /\ TLCGet(1) = Len(TraceLog) + 1
+====
+`
+}
+
+func traceCfg() string {
+	return "SPECIFICATION TraceSpec\nCONSTANTS\n  Modules <- GModules\n  Imports <- GImports\n  Entries <- GEntries\n  Injected <- GInjected\n" +
+		"  NOnStart = 0\n  AllowCancel = FALSE\n  PanicIn = {}\n" +
+		"INVARIANTS TypeOK LoadOnce IdxInjective RemainingExact StartBeforeLoad CompleteScan Drained\nCONSTRAINT HighWater\nPOSTCONDITION TraceAccepted\nCHECK_DEADLOCK FALSE\n"
 }
 
 func cfg(spec string, cancel bool, panicIn string, export bool, nOnStart int) string {
@@ -411,7 +478,7 @@ func modelGraph(r *core.Run, g graph) [][]string {
 	var orders [][]string
 	var mu sync.Mutex
 	res, err := tlcrun.Run(r, tlcrun.Options{
-		Module: mod, Config: mod + ".cfg", Workers: 4, TimeoutSec: 300,
+		Module: mod, Config: mod + ".cfg", Workers: 2, TimeoutSec: 600,
 		Files: map[string]string{mod + ".tla": g.tlaModule(mod), mod + ".cfg": cfg("Spec", false, "", true, 1)},
 		OnCase: func(raw []byte) {
 			var c tlcCase
@@ -446,7 +513,7 @@ func modelGraph(r *core.Run, g graph) [][]string {
 			continue
 		}
 		fr, err := tlcrun.Run(r, tlcrun.Options{
-			Module: mod, Config: mod + ".cfg", Workers: 4, TimeoutSec: 300,
+			Module: mod, Config: mod + ".cfg", Workers: 2, TimeoutSec: 600,
 			Files: map[string]string{mod + ".tla": g.tlaModule(mod), mod + ".cfg": cfg(fc.spec, fc.cancel, fc.panicIn, false, 1)},
 		})
 		if err != nil {
@@ -467,6 +534,7 @@ type replayIn struct {
 }
 
 type replayOut struct {
+	ScanTraces   [][]map[string]interface{} `json:"scan_traces"`
 	Fingerprints []string            `json:"fingerprints"` // [0] = ungated
 	Parts        []map[string]string `json:"parts"`
 	Imposed      []bool              `json:"imposed"` // the order was really imposed
@@ -494,7 +562,9 @@ func replayGraph(r *core.Run, in replayIn) (replayOut, error) {
 		injected = append(injected, e+".js")
 	}
 	opts := buildOpts(dir, entries, injected, in.Cfg, nil)
+	rec.Take()
 	res := api.Build(opts)
+	out.ScanTraces = append(out.ScanTraces, scanTrace(dir, rec.Take()))
 	fp, parts := fingerprint(dir, res)
 	out.Fingerprints = append(out.Fingerprints, fp)
 	out.Parts = append(out.Parts, parts)
@@ -505,6 +575,7 @@ func replayGraph(r *core.Run, in replayIn) (replayOut, error) {
 		go s.runExplicit(order)
 		res := api.Build(opts)
 		s.close()
+		out.ScanTraces = append(out.ScanTraces, scanTrace(dir, rec.Take()))
 		fp, parts := fingerprint(dir, res)
 		out.Fingerprints = append(out.Fingerprints, fp)
 		out.Parts = append(out.Parts, parts)
@@ -512,6 +583,107 @@ func replayGraph(r *core.Run, in replayIn) (replayOut, error) {
 	}
 	return out, nil
 }
+
+// scanTrace regroups the scan hook events of one build into trace events for
+// the generated trace module (pure regrouping/renaming)
+func scanTrace(dir string, evs []rec.Event) []map[string]interface{} {
+	name := func(p string) string {
+		if p == "<runtime>" {
+			return p
+		}
+		return strings.TrimSuffix(filepath.Base(p), ".js")
+	}
+	var out []map[string]interface{}
+	var cur map[string]interface{}
+	flush := func() {
+		if cur != nil {
+			out = append(out, cur)
+			cur = nil
+		}
+	}
+	for _, e := range evs {
+		if e.Str("cwd") != dir {
+			continue
+		}
+		switch e.Ev {
+		case "scan.barrier":
+			flush()
+			out = append(out, map[string]interface{}{"ev": "barrier"})
+		case "scan.recv":
+			flush()
+			cur = map[string]interface{}{"ev": "mainrecv", "f": "?", "remaining": e.Int("remaining"), "visits": []interface{}{}}
+		case "scan.result":
+			if cur != nil {
+				cur["f"] = name(e.Str("path"))
+			}
+		case "scan.visit":
+			v := map[string]interface{}{"m": name(e.Str("path")), "hit": e.Bool("hit"), "idx": e.Int("idx")}
+			if cur != nil {
+				cur["visits"] = append(cur["visits"].([]interface{}), v)
+			} else {
+				v["ev"] = "visit"
+				out = append(out, v)
+			}
+		}
+	}
+	flush()
+	out = append(out, map[string]interface{}{"ev": "done"})
+	return out
+}
+
+func validateScanTraces(r *core.Run, g graph, traces [][]map[string]interface{}) {
+	mod := "ScanT_" + strings.ReplaceAll(g.Name, "-", "_")
+	var sb strings.Builder
+	n := 0
+	for i, tr := range traces {
+		if i > 0 {
+			sb.WriteString("{\"ev\":\"reset\"}\n")
+			n++
+		}
+		for _, e := range tr {
+			b, _ := json.Marshal(e)
+			sb.Write(b)
+			sb.WriteByte('\n')
+			n++
+		}
+	}
+	res, err := tlcrun.Run(r, tlcrun.Options{Module: mod, Config: mod + ".cfg", Workers: 1, DFS: true, TimeoutSec: 600, KeepOutput: true,
+		Files: map[string]string{mod + ".tla": g.tlaTraceModule(mod), mod + ".cfg": traceCfg(), "scantrace.ndjson": sb.String()}})
+	if err != nil {
+		r.Infra("scan trace validation %s: %v", g.Name, err)
+		return
+	}
+	if res.Violated == "" && !res.PostFalse {
+		r.Inc("scan_traces_validated", int64(len(traces)))
+		return
+	}
+	hw := 0
+	for _, m := range reHW.FindAllStringSubmatch(res.Output, -1) {
+		var v int
+		fmt.Sscan(m[1], &v)
+		if v > hw {
+			hw = v
+		}
+	}
+	for _, m := range reL.FindAllStringSubmatch(res.Output, -1) {
+		var v int
+		fmt.Sscan(m[1], &v)
+		if v > hw {
+			hw = v
+		}
+	}
+	lines := strings.Split(sb.String(), "\n")
+	rejected := ""
+	if hw >= 1 && hw <= len(lines) {
+		rejected = lines[hw-1]
+	}
+	r.Violation(map[string]interface{}{"kind": "scan-trace-rejected", "graph": g.Name, "violated": res.Violated},
+		fmt.Sprintf("real scan of graph %s rejected by Scan.tla (violated=%q) at event %d: %s", g.Name, res.Violated, hw, rejected),
+		map[string]interface{}{"graph": g, "event_index": hw, "event": rejected, "trace": sb.String()})
+}
+
+var reHW = regexp.MustCompile(`"HIGHWATER", (\d+)`)
+var reL = regexp.MustCompile(`(?m)^/\\ l = (\d+)`)
 
 // ---------------------------------------------------------------------------
 // scaled scenarios
@@ -725,8 +897,11 @@ func Run(r *core.Run) {
 	}
 	imposedTotal := 0
 	// (A) model graphs: every arrival order TLC finds, imposed on the real scan
-	for gi, g := range graphs() {
-		orders := modelGraph(r, g)
+	gs := graphs()
+	allOrders := make([][][]string, len(gs))
+	core.Parallel(len(gs), 4, func(i int) { allOrders[i] = modelGraph(r, gs[i]) })
+	for gi, g := range gs {
+		orders := allOrders[gi]
 		if orders == nil {
 			continue
 		}
@@ -755,6 +930,9 @@ func Run(r *core.Run) {
 						map[string]interface{}{"graph": g, "cfg": c, "order": orders[i-1], "differs": d, "files": g.files()})
 					break
 				}
+			}
+			if ci == 0 {
+				validateScanTraces(r, g, out.ScanTraces)
 			}
 			imposedTotal += imposed
 			r.AddTraces(int64(imposed))
